@@ -133,6 +133,255 @@ fn kmax4<S: Dom>() -> i32 {
     }
 }
 
+/// Largest exponent tried when only one row / one column / the translation of a matrix is scaled; the candidate is
+/// then reduced until `scaling_in_range` holds, i.e. up to what the arithmetic of a cofactor evaluation tolerates for
+/// that zero pattern (f32: 2^124 * entry is still finite; Rat: i128).
+fn kwide<S: Dom>() -> i32 {
+    match S::NAME {
+        "f32" => 124,
+        "f64" => 1000,
+        _ => 40,
+    }
+}
+
+/// log2 window every intermediate quantity has to stay in: 8 binades inside the normal range of the float type
+/// (sums of 24 terms add < 5), 2^+-100 for Rat (i128 numerators and denominators below 2^120).
+fn log_range<S: Dom>() -> (f64, f64) {
+    match S::NAME {
+        "f32" => (-118.0, 118.0),
+        "f64" => (-1010.0, 1010.0),
+        _ => (-100.0, 100.0),
+    }
+}
+
+/// Do all products of 1..N non-zero entries taken from distinct rows and distinct columns (the only products a
+/// Leibniz / cofactor / 2x2-block evaluation of det and adj ever forms, including the partial products of terms that
+/// end in a structural zero) stay inside [2^lo, 2^hi]?  `lg[i][j]` = log2 |entry| or -inf.
+fn partial_products_in_range<const N: usize>(lg: &[[f64; N]; N], lo: f64, hi: f64) -> bool {
+    fn rec<const N: usize>(lg: &[[f64; N]; N], row: usize, used: u32, sum: f64, cnt: usize, lo: f64, hi: f64) -> bool {
+        if cnt > 0 && (sum < lo || sum > hi) {
+            return false;
+        }
+        if row == N {
+            return true;
+        }
+        if !rec(lg, row + 1, used, sum, cnt, lo, hi) {
+            return false;
+        }
+        for j in 0..N {
+            if used >> j & 1 == 0 && lg[row][j] != f64::NEG_INFINITY && !rec(lg, row + 1, used | 1 << j, sum + lg[row][j], cnt + 1, lo, hi) {
+                return false;
+            }
+        }
+        true
+    }
+    rec(lg, 0, 0, 0.0, 0, lo, hi)
+}
+
+fn log_matrix<const N: usize>(abs: &[[f64; N]; N], r: &[i32; N], c: &[i32; N]) -> [[f64; N]; N] {
+    let mut lg = [[f64::NEG_INFINITY; N]; N];
+    for i in 0..N {
+        for j in 0..N {
+            if abs[i][j] != 0.0 {
+                lg[i][j] = abs[i][j].log2() + (r[i] + c[j]) as f64;
+            }
+        }
+    }
+    lg
+}
+
+/// Can a cofactor-type inverse of `diag(2^r) B diag(2^c)` be evaluated without leaving the range: all partial
+/// products, the determinant and its reciprocal, and every non-zero entry of the result.
+fn scaling_in_range<S: Dom>(b_abs: &M4<f64>, w_abs: &M4<f64>, det_abs: f64, sc: &Scaling) -> bool {
+    let (lo, hi) = log_range::<S>();
+    if !partial_products_in_range(&log_matrix(b_abs, &sc.r, &sc.c), lo, hi) {
+        return false;
+    }
+    let e: i32 = sc.r.iter().sum::<i32>() + sc.c.iter().sum::<i32>();
+    let ld = det_abs.log2() + e as f64;
+    if ld < lo || ld > hi {
+        return false;
+    }
+    for i in 0..4 {
+        for j in 0..4 {
+            if w_abs[i][j] != 0.0 {
+                let l = w_abs[i][j].log2() - (sc.c[i] + sc.r[j]) as f64;
+                if l < lo || l > hi {
+                    return false;
+                }
+            }
+        }
+    }
+    true
+}
+
+/// Reduce the exponents (x -> 3x/4, keeping equal exponents equal and opposite ones opposite) until the case is in range.
+fn fit_scaling<S: Dom>(b_abs: &M4<f64>, w_abs: &M4<f64>, det_abs: f64, mut sc: Scaling) -> Scaling {
+    for _ in 0..48 {
+        if scaling_in_range::<S>(b_abs, w_abs, det_abs, &sc) {
+            return sc;
+        }
+        for i in 0..4 {
+            sc.r[i] = sc.r[i] * 3 / 4;
+            sc.c[i] = sc.c[i] * 3 / 4;
+        }
+    }
+    Scaling::NONE
+}
+
+/// vek's own products M' * inv(M') and inv(M') * M' have entries 2^(r_i - r_j) (M inv M)_ij resp. 2^(c_j - c_i) (..):
+/// are all their terms in range?
+fn own_products_in_range<S: Dom>(b_abs: &M4<f64>, w_abs: &M4<f64>, sc: &Scaling) -> bool {
+    let (lo, hi) = log_range::<S>();
+    for i in 0..4 {
+        for j in 0..4 {
+            for k in 0..4 {
+                let l = b_abs[i][k] * w_abs[k][j];
+                if l != 0.0 {
+                    let x = l.log2() + (sc.r[i] - sc.r[j]) as f64;
+                    if x < lo || x > hi {
+                        return false;
+                    }
+                }
+                let l = w_abs[i][k] * b_abs[k][j];
+                if l != 0.0 {
+                    let x = l.log2() + (sc.c[j] - sc.c[i]) as f64;
+                    if x < lo || x > hi {
+                        return false;
+                    }
+                }
+            }
+        }
+    }
+    true
+}
+
+fn abs4(a: &M4<Rat>) -> M4<f64> {
+    map4(a, |x: Rat| x.to_f64_lossy().abs())
+}
+
+/// Permanent of the |.| of the 3x3 minor obtained by deleting row `dr` and column `dc`.
+fn minor_perm_abs(b_abs: &M4<f64>, dr: usize, dc: usize) -> f64 {
+    let mut m = [[0.0f64; 3]; 3];
+    let mut ii = 0;
+    for i in 0..4 {
+        if i == dr {
+            continue;
+        }
+        let mut jj = 0;
+        for j in 0..4 {
+            if j == dc {
+                continue;
+            }
+            m[ii][jj] = b_abs[i][j];
+            jj += 1;
+        }
+        ii += 1;
+    }
+    perm_abs(&m)
+}
+
+/// Entry-wise a-priori error bound (in units of eps) of inv = adj / det when adj and det are evaluated as sums of
+/// signed products of entries (Leibniz, cofactor expansion, vek's 2x2-block formulas: the same monomials in another
+/// order): |d adj_ij| <= c eps perm|minor_ji|, |d det| <= c eps perm|B|, hence
+/// |d inv_ij| <= c eps (perm|minor_ji| + |inv_ij| perm|B|) / |det| + eps |inv_ij|.  Structural zeros drop out, so for an
+/// affine matrix the linear part never sees the magnitude of the translation. With `input_rounded` the stored entries
+/// carry up to 2 roundings each, which moves the true inverse by <= 2 eps |inv| |B| |inv| entry-wise.
+fn inverse_tolerances(b_abs: &M4<f64>, w_abs: &M4<f64>, det_abs: f64, input_rounded: bool) -> M4<f64> {
+    let p4 = perm_abs(b_abs);
+    let mut t = [[0.0f64; 4]; 4];
+    let wb = rf::matmul(w_abs, b_abs);
+    let wbw = rf::matmul(&wb, w_abs);
+    for i in 0..4 {
+        for j in 0..4 {
+            t[i][j] = (minor_perm_abs(b_abs, j, i) + w_abs[i][j] * p4) / det_abs + w_abs[i][j];
+            if input_rounded {
+                t[i][j] += 2.0 * wbw[i][j];
+            }
+        }
+    }
+    t
+}
+
+/// Entry-wise comparison: exact in Rat, |got - want| <= k eps tol[i][j] in floats (non-finite results fail).
+fn check_entries<S: Dom>(cx: &mut Cx, got: &M4<S>, want: &M4<S>, tol: &M4<f64>, k: f64, what: &dyn Fn() -> String) -> CaseResult {
+    for i in 0..4 {
+        for j in 0..4 {
+            cx.count();
+            let (g, w) = (got[i][j], want[i][j]);
+            let ok = if S::EXACT {
+                g == w
+            } else {
+                let (x, y) = (g.f(), w.f());
+                let d = (x - y).abs();
+                let tl = k * S::eps() * tol[i][j];
+                if x != y && d.is_finite() && tl > 0.0 {
+                    cx.note_err(d / tl);
+                }
+                x == y || d <= tl
+            };
+            if !ok {
+                fail!("{}: element ({},{}) differs: got {:?}, want {:?} (tolerance {:e})\n got  {:?}\n want {:?}", what(), i, j, g, w, k * S::eps() * tol[i][j], got, want);
+            }
+        }
+    }
+    Ok(())
+}
+
+fn two_sum(a: f64, b: f64) -> (f64, f64) {
+    let s = a + b;
+    let bb = s - a;
+    (s, (a - (s - bb)) + (b - bb))
+}
+
+/// Dot product of four terms evaluated as if in twice the working precision (Ogita-Rump-Oishi Dot2), and sum |x y|.
+fn dot2(x: &[f64; 4], y: &[f64; 4]) -> (f64, f64) {
+    let mut p = x[0] * y[0];
+    let mut s = x[0].mul_add(y[0], -p);
+    let mut abs = p.abs();
+    for i in 1..4 {
+        let h = x[i] * y[i];
+        let r = x[i].mul_add(y[i], -h);
+        let (q, e) = two_sum(p, h);
+        p = q;
+        s += e + r;
+        abs += h.abs();
+    }
+    (p + s, abs)
+}
+
+/// Two-sided residual of a claimed inverse `g` of `a`, with the products evaluated exactly (Rat) or in doubled
+/// precision on the values as stored (floats): |(A G - I)_ij| <= k eps sum_k |a_ik| |g_kj|, same for G A. The bound is
+/// entry-wise, i.e. automatically relative to s_j/s_i and |t|/s_i for a T*R*S matrix.
+fn residual_check<S: Dom>(cx: &mut Cx, what: &str, a: &M4<S>, g: &M4<S>, k: f64) -> CaseResult {
+    if S::EXACT {
+        let id: M4<S> = rf::identity();
+        check_eq!(cx, rf::matmul(a, g), id, "{}: M * inv(M) = I exactly", what);
+        check_eq!(cx, rf::matmul(g, a), id, "{}: inv(M) * M = I exactly", what);
+        return Ok(());
+    }
+    let (af, gf) = (map4(a, |x: S| x.f()), map4(g, |x: S| x.f()));
+    for (x, y, name) in [(&af, &gf, "M * inv(M)"), (&gf, &af, "inv(M) * M")] {
+        for i in 0..4 {
+            for j in 0..4 {
+                let col = [y[0][j], y[1][j], y[2][j], y[3][j]];
+                let (p, abs) = dot2(&x[i], &col);
+                let want = if i == j { 1.0 } else { 0.0 };
+                let d = (p - want).abs();
+                let tl = k * S::eps() * abs;
+                cx.count();
+                if d.is_finite() && tl > 0.0 && d != 0.0 {
+                    cx.note_err(d / tl);
+                }
+                if !(d <= tl) {
+                    fail!("{}: ({})[{}][{}] = {:e}, want {} (residual {:e} > {:e} = {} eps * sum |a||g|)\n M      = {:?}\n inv(M) = {:?}", what, name, i, j, p, want, d, tl, k, a, g);
+                }
+            }
+        }
+    }
+    Ok(())
+}
+
 fn ri(n: i64) -> Rat {
     Rat::int(n)
 }
@@ -531,17 +780,35 @@ pub fn family(t: &mut Tape) -> (M4<Rat>, &'static str, Affine) {
     (m, label, aff)
 }
 
-fn pick_scaling<S: Dom>(t: &mut Tape, aff: Affine) -> (Scaling, &'static str) {
+/// What is scaled. `OneElement` is not a row/column scaling: the caller multiplies one entry of the base itself.
+#[derive(Clone, Copy, Debug, PartialEq)]
+enum Pattern {
+    Lines(Scaling),
+    OneElement,
+}
+
+fn pick_scaling<S: Dom>(t: &mut Tape, aff: Affine) -> (Pattern, &'static str) {
     let kmax = kmax4::<S>();
-    let sel = t.below(8);
+    let wide = kwide::<S>();
+    let sel = t.below(12);
     let uniform = |t: &mut Tape| {
         let k = kexp(t, kmax);
-        (Scaling { r: [0; 4], c: [k; 4] }, if k < 0 { "all entries * 2^k, k < 0" } else { "all entries * 2^k, k > 0" })
+        (Pattern::Lines(Scaling { r: [0; 4], c: [k; 4] }), if k < 0 { "all entries * 2^k, k < 0" } else { "all entries * 2^k, k > 0" })
+    };
+    let one_line = |t: &mut Tape, row: bool| {
+        let mut s = Scaling::NONE;
+        let k = kexp(t, wide);
+        if row {
+            s.r[t.below(4)] = k;
+        } else {
+            s.c[t.below(4)] = k;
+        }
+        (Pattern::Lines(s), if k < 0 { "one row or column * 2^k, k < 0 (up to the range limit)" } else { "one row or column * 2^k, k > 0 (up to the range limit)" })
     };
     match sel {
-        0..=2 => (Scaling::NONE, "unit scale"),
+        0..=2 => (Pattern::Lines(Scaling::NONE), "unit scale"),
         3 | 4 => uniform(t),
-        5 | 6 if aff != Affine::No => {
+        5 if aff != Affine::No => {
             let (kl, kt) = match t.below(3) {
                 0 => (kexp(t, kmax), kexp(t, kmax)),
                 1 => (0, kexp(t, kmax)),
@@ -555,45 +822,153 @@ fn pick_scaling<S: Dom>(t: &mut Tape, aff: Affine) -> (Scaling, &'static str) {
             } else {
                 "affine: linear part and translation scaled independently"
             };
-            (if aff == Affine::LastRow { Scaling { r: b, c: a } } else { Scaling { r: a, c: b } }, label)
+            (Pattern::Lines(if aff == Affine::LastRow { Scaling { r: b, c: a } } else { Scaling { r: a, c: b } }), label)
         }
-        7 if S::EXACT => {
+        6 if aff != Affine::No => {
+            // the translation alone, as far as the arithmetic goes: a cofactor contains at most one translation factor
+            let kt = kexp(t, wide);
+            let (a, b) = ([0, 0, 0, kt], [0, 0, 0, -kt]);
+            (
+                Pattern::Lines(if aff == Affine::LastRow { Scaling { r: b, c: a } } else { Scaling { r: a, c: b } }),
+                if kt < 0 { "affine: translation * 2^k, k < 0 (up to the range limit)" } else { "affine: translation * 2^k, k > 0 (up to the range limit)" },
+            )
+        }
+        7 => one_line(t, true),
+        8 => one_line(t, false),
+        9 => {
             let mut s = Scaling::NONE;
+            let lim = if S::EXACT { 6 } else { kmax as i64 };
             for i in 0..4 {
-                s.r[i] = t.int(-6, 6) as i32;
-                s.c[i] = t.int(-6, 6) as i32;
+                s.r[i] = t.int(-lim, lim) as i32;
+                s.c[i] = t.int(-lim, lim) as i32;
             }
-            (s, "independent row and column exponents (Rat only)")
+            (Pattern::Lines(s), "independent row and column exponents")
         }
-        _ => uniform(t),
+        10 => (Pattern::OneElement, "one element * 2^k (|k| <= 40)"),
+        11 => {
+            // one line huge, another tiny
+            let mut s = Scaling::NONE;
+            let (k, l) = (kexp(t, wide).abs(), kexp(t, wide).abs());
+            let (i, j) = (t.below(4), t.below(4));
+            match t.below(3) {
+                0 => {
+                    s.r[i] = k;
+                    s.r[(i + 1 + j % 3) % 4] = -l;
+                }
+                1 => {
+                    s.c[i] = k;
+                    s.c[(i + 1 + j % 3) % 4] = -l;
+                }
+                _ => {
+                    s.r[i] = k;
+                    s.c[j] = -l;
+                }
+            }
+            (Pattern::Lines(s), "one line * 2^k and another * 2^-l (up to the range limit)")
+        }
+        _ => {
+            let row = t.bool();
+            one_line(t, row)
+        }
+    }
+}
+
+fn affine_kind(b: &M4<Rat>) -> Affine {
+    let (z, o) = (Rat::ZERO, Rat::ONE);
+    if b[3] == [z, z, z, o] {
+        Affine::LastRow
+    } else if [b[0][3], b[1][3], b[2][3], b[3][3]] == [z, z, z, o] {
+        Affine::LastCol
+    } else {
+        Affine::No
     }
 }
 
 /// `Mat4::inverted()` / `invert()` on structured matrices, scaled exactly.
 pub fn inverse_structured<S: Dom>(t: &mut Tape, cx: &mut Cx) -> CaseResult {
-    let (b, label, aff) = family(t);
+    let (mut b, label, aff) = family(t);
+    let (pattern, sc_label) = pick_scaling::<S>(t, aff);
+    if pattern == Pattern::OneElement {
+        let (i, j) = (t.below(4), t.below(4));
+        let k = kexp(t, 40);
+        let v = if b[i][j].is_zero() { nz(t) } else { b[i][j] };
+        b[i][j] = v * if k > 0 { Rat::new(1i128 << k, 1) } else { Rat::new(1, 1i128 << (-k)) };
+    }
+    let aff = if pattern == Pattern::OneElement { affine_kind(&b) } else { aff };
     let d = rf::det(&b);
     if d.is_zero() {
         discard!("precondition:det=0");
     }
-    let (sc, sc_label) = pick_scaling::<S>(t, aff);
+    let binv = rf::inverse(&b).expect("non-singular");
+    let (b_abs, w_abs, det_abs) = (abs4(&b), abs4(&binv), d.to_f64_lossy().abs());
+    let wanted = match pattern {
+        Pattern::Lines(s) => s,
+        Pattern::OneElement => Scaling::NONE,
+    };
+    if !scaling_in_range::<S>(&b_abs, &w_abs, det_abs, &Scaling::NONE) {
+        discard!("precondition:the unscaled base is outside the range (one huge element)");
+    }
+    let sc = fit_scaling::<S>(&b_abs, &w_abs, det_abs, wanted);
     cx.label(label);
     cx.label(sc_label);
+    if sc != wanted {
+        cx.label("exponents reduced to the range limit of this zero pattern");
+    }
     match aff {
         Affine::LastRow => cx.label("exact last row (0,0,0,1)"),
         Affine::LastCol => cx.label("exact last column (0,0,0,1)"),
         Affine::No => {}
     }
-    if sc.weight() >= 2 * kmax4::<S>() {
-        cx.label("extreme exponent (>= kmax/2)");
+    // magnitudes inside the matrix vs the fourth root of the largest / smallest normal number
+    {
+        let (lo, hi) = log_range::<S>();
+        let lg = log_matrix(&b_abs, &sc.r, &sc.c);
+        let (mut mx, mut mn) = (f64::NEG_INFINITY, f64::INFINITY);
+        for r in &lg {
+            for x in r {
+                if *x != f64::NEG_INFINITY {
+                    mx = mx.max(*x);
+                    mn = mn.min(*x);
+                }
+            }
+        }
+        if mx > hi / 4.0 + 2.0 && mn < hi / 8.0 {
+            cx.label("largest element above MAX^(1/4) next to ordinary ones");
+        }
+        if mn < lo / 4.0 - 2.0 && mx > lo / 8.0 {
+            cx.label("smallest element below MIN_POSITIVE^(1/4) next to ordinary ones");
+        }
+        if mx > hi / 4.0 + 2.0 && mn >= hi / 8.0 {
+            cx.label("all elements huge");
+        }
     }
-    let binv = rf::inverse(&b).expect("non-singular");
-    let (m, w) = (rat_max(&b), rat_max(&binv));
-    // a-priori bound of any adjugate/cofactor evaluation: |d adj| <= c eps m^3, |d det| <= c eps m^4
-    // (worst case constant ~ 650 for a dense matrix with all |entries| = m; 256 is still 500 times the largest error
-    // observed on the unchanged tree)
-    let amp = m.powi(3) / d.to_f64_lossy().abs() * (1.0 + m * w);
-    let k = 256.0;
+    let k = 64.0;
+    // the first-order bound needs |d det| << |det|: where the rounding error of the 24-term sum can reach the
+    // determinant itself, every float evaluation may return det = 0 (inf/NaN inverse); that is conditioning, not a defect
+    if !S::EXACT && 4.0 * k * S::eps() * perm_abs(&b_abs) > det_abs {
+        discard!("precondition:|det| below 256 eps * sum of |terms| (float conditioning)");
+    }
+    let tol = inverse_tolerances(&b_abs, &w_abs, det_abs, false);
+    let tol_left = {
+        let (a, b2) = (rf::matmul(&b_abs, &tol), rf::matmul(&b_abs, &w_abs));
+        let mut m = a;
+        for i in 0..4 {
+            for j in 0..4 {
+                m[i][j] = a[i][j] + b2[i][j];
+            }
+        }
+        m
+    };
+    let tol_right = {
+        let (a, b2) = (rf::matmul(&tol, &b_abs), rf::matmul(&w_abs, &b_abs));
+        let mut m = a;
+        for i in 0..4 {
+            for j in 0..4 {
+                m[i][j] = a[i][j] + b2[i][j];
+            }
+        }
+        m
+    };
     let mut zeros = 0;
     for i in 0..3 {
         for j in 0..3 {
@@ -602,9 +977,21 @@ pub fn inverse_structured<S: Dom>(t: &mut Tape, cx: &mut Cx) -> CaseResult {
             }
         }
     }
-    // non-trivial: the 3x3 part is not diagonal-like, the matrix is not symmetric, and (floats) the tolerance is far
-    // below the size of the inverse
-    cx.set_nontrivial(zeros <= 5 && b != rf::transpose(&b) && (S::EXACT || k * S::eps() * amp <= w / 64.0));
+    // non-trivial: the 3x3 part is not diagonal-like, the matrix is not symmetric, and (floats) the tolerance of every
+    // non-zero entry of the inverse is far below that entry's own size or the size of the largest entry of its row
+    let discriminating = S::EXACT || {
+        let mut ok = true;
+        for i in 0..4 {
+            let rowmax = w_abs[i].iter().cloned().fold(0.0, f64::max);
+            for j in 0..4 {
+                if k * S::eps() * tol[i][j] > rowmax / 64.0 {
+                    ok = false;
+                }
+            }
+        }
+        ok
+    };
+    cx.set_nontrivial(zeros <= 5 && b != rf::transpose(&b) && discriminating);
     let bs: M4<S> = map4(&b, rat_to::<S>);
     let w0: M4<S> = map4(&binv, rat_to::<S>);
     let ms = sc.apply(&bs);
@@ -612,12 +999,11 @@ pub fn inverse_structured<S: Dom>(t: &mut Tape, cx: &mut Cx) -> CaseResult {
     let id: M4<S> = rf::identity();
     let (r, c) = (rm::Mat4::<S>::from_arr(&ms), cm::Mat4::<S>::from_arr(&ms));
     let (ri_, ci_) = (r.inverted(), c.inverted());
-    let prod_scale = 4.0 * m * amp + 16.0 * m * w;
     for (what, g) in [("row-major", ri_.to_arr()), ("col-major", ci_.to_arr())] {
         let g0 = sc.unscale_inverse(&g);
-        check_mat!(cx, S, g0, w0, amp, k, "{} inverted() of a structured matrix ({}) vs the exact inverse (scaled back by powers of two)", what, label);
-        check_mat!(cx, S, rf::matmul(&bs, &g0), id, prod_scale, k, "{} M * inverted() = I ({})", what, label);
-        check_mat!(cx, S, rf::matmul(&g0, &bs), id, prod_scale, k, "{} inverted() * M = I ({})", what, label);
+        check_entries(cx, &g0, &w0, &tol, k, &|| format!("{} inverted() of a structured matrix ({}, {}) vs the exact inverse (scaled back by powers of two)", what, label, sc_label))?;
+        check_entries(cx, &rf::matmul(&bs, &g0), &id, &tol_left, k, &|| format!("{} M * inverted() = I ({}, {})", what, label, sc_label))?;
+        check_entries(cx, &rf::matmul(&g0, &bs), &id, &tol_right, k, &|| format!("{} inverted() * M = I ({}, {})", what, label, sc_label))?;
     }
     let mut r2 = r;
     r2.invert();
@@ -625,9 +1011,13 @@ pub fn inverse_structured<S: Dom>(t: &mut Tape, cx: &mut Cx) -> CaseResult {
     let mut c2 = c;
     c2.invert();
     check_eq!(cx, c2.to_arr(), ci_.to_arr(), "col-major invert() == inverted() ({})", label);
-    // vek's own products, both orders, one per layout
-    check_mat!(cx, S, sc.unscale_left_product(&(r * ri_).to_arr()), id, prod_scale, k, "row-major M * M.inverted() ({})", label);
-    check_mat!(cx, S, sc.unscale_right_product(&(ci_ * c).to_arr()), id, prod_scale, k, "col-major M.inverted() * M ({})", label);
+    // vek's own products, both orders, one per layout (only where the products themselves stay in range)
+    if own_products_in_range::<S>(&b_abs, &w_abs, &sc) {
+        check_entries(cx, &sc.unscale_left_product(&(r * ri_).to_arr()), &id, &tol_left, k, &|| format!("row-major M * M.inverted() ({}, {})", label, sc_label))?;
+        check_entries(cx, &sc.unscale_right_product(&(ci_ * c).to_arr()), &id, &tol_right, k, &|| format!("col-major M.inverted() * M ({}, {})", label, sc_label))?;
+    } else {
+        cx.label("vek's own M * inv(M) not formed (its terms would leave the range)");
+    }
     Ok(())
 }
 
@@ -749,9 +1139,11 @@ fn scales_regime<S: Dom>(t: &mut Tape) -> ([Rat; 3], [i32; 3], &'static str) {
 }
 
 fn transl_regime<S: Dom>(t: &mut Tape) -> ([Rat; 3], i32, &'static str) {
+    // far beyond MAX^(1/4): the fast inverses multiply a translation with one rotation entry / scale only, and a cofactor of
+    // the general inverse contains at most one translation factor; the caller reduces k to the range limit of the case
     let ktmax = match S::NAME {
-        "f32" => 24,
-        "f64" => 100,
+        "f32" => 110,
+        "f64" => 900,
         _ => 56,
     };
     if t.chance(32) {
@@ -794,11 +1186,86 @@ fn check_affine_like<S: Dom>(cx: &mut Cx, what: &str, g0: &M4<S>, w0: &M4<S>, li
     Ok(())
 }
 
+/// A rotation computed in f64 from an angle (sin / cos, Rodrigues, or via a unit quaternion) and then rounded to the
+/// domain entry by entry: the matrices applications actually store. Entries may round to exactly 0 / 1 / -1 while their
+/// neighbours do not (small angles, angles next to a multiple of pi/2).
+fn rot_rounded<S: Dom>(t: &mut Tape) -> ([[f64; 3]; 3], &'static str) {
+    let emax = if S::NAME == "f32" { 30 } else { 60 };
+    let sign = if t.bool() { -1.0 } else { 1.0 };
+    let (theta, label) = match t.below(8) {
+        0..=2 => {
+            let e = t.int(3, emax) as i32;
+            (sign * (2.0f64).powi(-e) * (1.0 + t.unit_f64()), "rounded rotation: small angle")
+        }
+        3 | 4 => {
+            let q = t.int(0, 8) as f64;
+            let d = (2.0f64).powi(-(t.int(3, emax) as i32)) * (1.0 + t.unit_f64());
+            (sign * (q * std::f64::consts::FRAC_PI_2 + if t.bool() { d } else { -d }), "rounded rotation: next to a multiple of pi/2")
+        }
+        5 | 6 => (sign * t.range_f64(0.0, std::f64::consts::PI), "rounded rotation: ordinary angle"),
+        _ => {
+            let e = t.int(3, 20) as i32;
+            (sign * (2.0f64).powi(e) * (1.0 + t.unit_f64()), "rounded rotation: many turns")
+        }
+    };
+    // the angle itself is a value of the domain (as in rotation_z(1e-4_f32))
+    let theta = <S as NumCast>::from(theta).expect("finite").f();
+    let (sn, cs) = theta.sin_cos();
+    let r = match t.below(6) {
+        0 => [[1.0, 0.0, 0.0], [0.0, cs, -sn], [0.0, sn, cs]],
+        1 => [[cs, 0.0, sn], [0.0, 1.0, 0.0], [-sn, 0.0, cs]],
+        2 => [[cs, -sn, 0.0], [sn, cs, 0.0], [0.0, 0.0, 1.0]],
+        3 | 4 => {
+            // Rodrigues about a unit axis with rational components; 1 - cos = 2 sin^2(theta/2) keeps small angles accurate
+            let (v, len) = gens::pythagorean3(t);
+            let k = [v[0] as f64 / len as f64, v[1] as f64 / len as f64, v[2] as f64 / len as f64];
+            let h = (theta / 2.0).sin();
+            let omc = 2.0 * h * h;
+            let mut r = [[0.0; 3]; 3];
+            let kx = [[0.0, -k[2], k[1]], [k[2], 0.0, -k[0]], [-k[1], k[0], 0.0]];
+            for i in 0..3 {
+                for j in 0..3 {
+                    r[i][j] = if i == j { 1.0 - omc * (1.0 - k[i] * k[i]) } else { omc * k[i] * k[j] + sn * kx[i][j] };
+                }
+            }
+            r
+        }
+        _ => {
+            // through the unit quaternion (cos(theta/2), sin(theta/2) k)
+            let (v, len) = gens::pythagorean3(t);
+            let (h, c) = (theta / 2.0).sin_cos();
+            let (w, x, y, z) = (c, h * v[0] as f64 / len as f64, h * v[1] as f64 / len as f64, h * v[2] as f64 / len as f64);
+            [
+                [1.0 - 2.0 * (y * y + z * z), 2.0 * (x * y - w * z), 2.0 * (x * z + w * y)],
+                [2.0 * (x * y + w * z), 1.0 - 2.0 * (x * x + z * z), 2.0 * (y * z - w * x)],
+                [2.0 * (x * z - w * y), 2.0 * (y * z + w * x), 1.0 - 2.0 * (x * x + y * y)],
+            ]
+        }
+    };
+    (r, label)
+}
+
 /// Shared body: `rigid` -> T*R with the no-scale inverse (and the other two), else T*R*S with the affine inverse.
-fn fast_inverse_wide<S: Dom>(t: &mut Tape, cx: &mut Cx, rigid: bool) -> CaseResult {
-    let (rot, rot_label) = rot_regime(t);
+/// `rounded` -> the rotation is a float-rounded sin/cos rotation instead of an exact rational one (float domains only).
+fn fast_inverse_wide<S: Dom>(t: &mut Tape, cx: &mut Cx, rigid: bool, rounded: bool) -> CaseResult {
+    assert!(!(rounded && S::EXACT));
+    let to_s = |x: f64| <S as NumCast>::from(x).expect("finite");
+    // rotation: exact rational, or f64 rounded to the domain
+    let (rot_rat, rot_f, rot_label) = if rounded {
+        let (r, l) = rot_rounded::<S>(t);
+        (None, r, l)
+    } else {
+        let (r, l) = rot_regime(t);
+        let mut f = [[0.0; 3]; 3];
+        for i in 0..3 {
+            for j in 0..3 {
+                f[i][j] = r[i][j].to_f64_lossy();
+            }
+        }
+        (Some(r), f, l)
+    };
     let (mant, e, s_label) = if rigid { ([Rat::ONE; 3], [0; 3], "no scale") } else { scales_regime::<S>(t) };
-    let (tr, kt, t_label) = transl_regime::<S>(t);
+    let (tr, kt_wanted, t_label) = transl_regime::<S>(t);
     cx.label(rot_label);
     cx.label(t_label);
     if !rigid {
@@ -808,53 +1275,119 @@ fn fast_inverse_wide<S: Dom>(t: &mut Tape, cx: &mut Cx, rigid: bool) -> CaseResu
             cx.label("negative scale");
         }
     }
-    // exact base matrix (moderate) and its exact inverse  S^-1 R^T [I | -t]
-    let mut l = rot;
+    // base matrix (moderate) in the domain, and its inverse S^-1 R^T [I | -t] (exact in Rat, from the f64 rotation otherwise)
+    let mut bs: M4<S> = rf::identity();
+    let mut w0: M4<S> = rf::identity();
+    let mf: Vec<f64> = mant.iter().map(|x| x.to_f64_lossy()).collect();
+    let tf: Vec<f64> = tr.iter().map(|x| x.to_f64_lossy()).collect();
     for i in 0..3 {
+        bs[i][3] = rat_to::<S>(tr[i]);
         for j in 0..3 {
-            l[i][j] = rot[i][j] * mant[j];
+            bs[i][j] = match &rot_rat {
+                Some(r) => rat_to::<S>(r[i][j] * mant[j]),
+                None => to_s(rot_f[i][j]) * rat_to::<S>(mant[j]),
+            };
+        }
+        match &rot_rat {
+            Some(r) => {
+                let mut acc = Rat::ZERO;
+                for j in 0..3 {
+                    w0[i][j] = rat_to::<S>(r[j][i] / mant[i]);
+                    acc = acc + r[j][i] * tr[j];
+                }
+                w0[i][3] = rat_to::<S>(-(acc / mant[i]));
+            }
+            None => {
+                let mut acc = 0.0;
+                for j in 0..3 {
+                    w0[i][j] = to_s(rot_f[j][i] / mf[i]);
+                    acc += rot_f[j][i] * tf[j];
+                }
+                w0[i][3] = to_s(-acc / mf[i]);
+            }
         }
     }
-    let b = gens::embed4(&l, &tr);
-    let mut binv = [[Rat::ZERO; 4]; 4];
-    binv[3][3] = Rat::ONE;
-    for i in 0..3 {
-        let mut acc = Rat::ZERO;
-        for j in 0..3 {
-            binv[i][j] = rot[j][i] / mant[i];
-            acc = acc + rot[j][i] * tr[j];
+    if rounded {
+        let mut snapped = false;
+        for i in 0..3 {
+            let row: Vec<f64> = (0..3).map(|j| to_s(rot_f[i][j]).f()).collect();
+            if row.iter().any(|x| x.abs() == 1.0) && row.iter().filter(|x| **x != 0.0).count() > 1 {
+                snapped = true;
+            }
         }
-        binv[i][3] = -(acc / mant[i]);
+        if snapped {
+            cx.label("a rotation entry rounds to exactly +-1 while its row has other non-zero entries");
+        }
+    }
+    let b_abs: M4<f64> = map4(&bs, |x: S| x.f().abs());
+    let w_abs: M4<f64> = map4(&w0, |x: S| x.f().abs());
+    let det_abs = (mf[0] * mf[1] * mf[2]).abs();
+    let tmax = tf.iter().map(|x| x.abs()).fold(0.0, f64::max);
+    // translation exponent: reduce to what the fast inverses themselves can represent: inputs t 2^kt, outputs
+    // (R^T t / s_i) 2^(kt - e_i) and their terms, all inside the range
+    let (lo, hi) = log_range::<S>();
+    let fast_in_range = |kt: i32| {
+        for i in 0..3 {
+            if tf[i] != 0.0 {
+                let l = tf[i].abs().log2() + kt as f64;
+                if l < lo || l > hi {
+                    return false;
+                }
+            }
+            if tmax != 0.0 {
+                let top = (tmax * 3.0 / mf[i].abs()).log2() + (kt - e[i]) as f64;
+                if top > hi {
+                    return false;
+                }
+            }
+            if w_abs[i][3] != 0.0 {
+                let l = w_abs[i][3].log2() + (kt - e[i]) as f64;
+                if l < lo || l > hi {
+                    return false;
+                }
+            }
+        }
+        true
+    };
+    let mut kt = kt_wanted;
+    while !fast_in_range(kt) {
+        kt = kt * 3 / 4;
+    }
+    if kt != kt_wanted {
+        cx.label("translation exponent reduced to the range limit");
+    }
+    if (kt as f64) + tmax.max(1e-300).log2() > hi / 4.0 + 2.0 {
+        cx.label("translation above MAX^(1/4)");
+    }
+    if tmax != 0.0 && (kt as f64) + tmax.log2() < lo / 4.0 - 2.0 {
+        cx.label("translation below MIN_POSITIVE^(1/4)");
     }
     let sc = Scaling { r: [0, 0, 0, -kt], c: [e[0], e[1], e[2], kt] };
-    let bs: M4<S> = map4(&b, rat_to::<S>);
-    let w0: M4<S> = map4(&binv, rat_to::<S>);
     let ms = sc.apply(&bs);
-    let rot_dense = rot.iter().all(|r| r.iter().all(|x| !x.is_zero()));
+    let rot_dense = rot_f.iter().all(|r| r.iter().all(|x| *x != 0.0));
     let nonuniform = !(e[0] == e[1] && e[1] == e[2] && mant[0] == mant[1] && mant[1] == mant[2]);
-    cx.set_nontrivial(rot_dense && if rigid { tr != [Rat::ZERO; 3] } else { nonuniform });
-    sample!(cx, "{} rot={:?} scale mantissas={:?} exponents={:?} t={:?}*2^{} M={:?}", S::NAME, rot, mant, e, tr, kt, ms);
+    cx.set_nontrivial((rot_dense || rounded) && if rigid { tmax != 0.0 } else { nonuniform });
+    sample!(cx, "{} rot={:?} scale mantissas={:?} exponents={:?} t={:?}*2^{} M={:?}", S::NAME, rot_f, mant, e, tr, kt, ms);
 
-    let mf: Vec<f64> = mant.iter().map(|x| x.to_f64_lossy().abs()).collect();
-    let (mmin, mmax) = (mf.iter().cloned().fold(f64::MAX, f64::min), mf.iter().cloned().fold(0.0, f64::max));
-    let tmax = tr.iter().map(|x| x.to_f64_lossy().abs()).fold(0.0, f64::max);
+    let (mmin, mmax) = (mf.iter().map(|x| x.abs()).fold(f64::MAX, f64::min), mf.iter().map(|x| x.abs()).fold(0.0, f64::max));
     let lin_scale = 1.0 / mmin;
     let tr_scale = tmax / mmin;
     let prod_scale = (mmax / mmin) * tmax.max(1.0);
     // column_i / |column_i|^2 and -(row . t): <= ~10 roundings per entry on top of the two roundings of each base entry;
     // 512 keeps two orders of magnitude above the largest error observed (3 eps) and three or more below an O(1) defect
     let k = 512.0;
+    // residuals in doubled precision on the stored values. A-priori: the transposed block of a matrix whose entries are
+    // within 2 roundings of a rotation * scale has |R~^T R~ - I|_ij <= 2 eps sum_k |r_ki||r_kj|; column / |column|^2 adds
+    // <= 3 eps, the translation dot product <= 2 eps relative to sum |g_ik||t_k|: <= 6 eps sum |a||g| in total. 32 leaves
+    // a factor 5 and still sees a rotation that is off by an angle of 2^-18 (f32) / 2^-47 (f64)
+    let kres = 32.0;
     let id: M4<S> = rf::identity();
     let (r, c) = (rm::Mat4::<S>::from_arr(&ms), cm::Mat4::<S>::from_arr(&ms));
 
-    // the general inverse: tolerance of an adjugate evaluation at the base level
-    let m = rat_max(&b).max(1.0);
-    let w = rat_max(&binv);
-    let det = (mf[0] * mf[1] * mf[2]).abs();
-    let amp = m.powi(3) / det * (1.0 + m * w);
-    let general_ok = !S::EXACT || sc.weight() <= 56;
+    // the general inverse and the determinant: only where a cofactor evaluation stays in range
+    let general_ok = if S::EXACT { sc.weight() <= 56 } else { scaling_in_range::<S>(&b_abs, &w_abs, det_abs, &sc) };
     if !general_ok {
-        cx.label("general inverse not called (Rat: four-fold products would leave the i128 range)");
+        cx.label("general inverse not called (its four-fold products would leave the range)");
     }
 
     macro_rules! one {
@@ -863,6 +1396,7 @@ fn fast_inverse_wide<S: Dom>(t: &mut Tape, cx: &mut Cx, rigid: bool) -> CaseResu
             check_affine_like(cx, $what, &g0, &w0, lin_scale, tr_scale, k)?;
             check_mat!(cx, S, rf::matmul(&bs, &g0), id, prod_scale, k, "{}: M * inv(M) = I (scaled back by powers of two)", $what);
             check_mat!(cx, S, rf::matmul(&g0, &bs), id, prod_scale, k, "{}: inv(M) * M = I (scaled back by powers of two)", $what);
+            residual_check(cx, $what, &bs, &g0, kres)?;
         }};
     }
     if rigid {
@@ -884,18 +1418,39 @@ fn fast_inverse_wide<S: Dom>(t: &mut Tape, cx: &mut Cx, rigid: bool) -> CaseResu
     c2.invert_affine_transform();
     check_eq!(cx, c2.to_arr(), c.inverted_affine_transform().to_arr(), "col-major invert_affine_transform() == returning form");
     if general_ok {
-        let kg = 256.0;
-        check_mat!(cx, S, sc.unscale_inverse(&r.inverted().to_arr()), w0, amp, kg, "row-major inverted() on a {} matrix agrees with the exact / fast inverse", if rigid { "rigid" } else { "T*R*S" });
-        check_mat!(cx, S, sc.unscale_inverse(&c.inverted().to_arr()), w0, amp, kg, "col-major inverted() on a {} matrix agrees with the exact / fast inverse", if rigid { "rigid" } else { "T*R*S" });
+        let kg = 64.0;
+        let kind = if rigid { "rigid" } else { "T*R*S" };
+        let tol = inverse_tolerances(&b_abs, &w_abs, det_abs, !S::EXACT);
+        let (gr, gc) = (r.inverted(), c.inverted());
+        check_entries(cx, &sc.unscale_inverse(&gr.to_arr()), &w0, &tol, kg, &|| format!("row-major inverted() on a {} matrix agrees with the exact / fast inverse (scaled back by powers of two)", kind))?;
+        check_entries(cx, &sc.unscale_inverse(&gc.to_arr()), &w0, &tol, kg, &|| format!("col-major inverted() on a {} matrix agrees with the exact / fast inverse (scaled back by powers of two)", kind))?;
+        let mut r2 = r;
+        r2.invert();
+        check_eq!(cx, r2.to_arr(), gr.to_arr(), "row-major invert() == inverted() on a {} matrix", kind);
+        let mut c2 = c;
+        c2.invert();
+        check_eq!(cx, c2.to_arr(), gc.to_arr(), "col-major invert() == inverted() on a {} matrix", kind);
+        // determinant = product of the scales (times det R = 1), scaled back
+        let want = rat_to::<S>(mant[0] * mant[1] * mant[2]);
+        let dtol = 128.0 * S::eps() * perm_abs(&b_abs);
+        let unscale = p2::<S>(-(e[0] + e[1] + e[2]));
+        near::<S>(cx, r.determinant() * unscale, want, dtol, "row-major determinant of a T*R*S matrix = product of the scales", kind)?;
+        near::<S>(cx, c.determinant() * unscale, want, dtol, "col-major determinant of a T*R*S matrix = product of the scales", kind)?;
     }
     Ok(())
 }
 
 pub fn inverse_rigid_wide<S: Dom>(t: &mut Tape, cx: &mut Cx) -> CaseResult {
-    fast_inverse_wide::<S>(t, cx, true)
+    fast_inverse_wide::<S>(t, cx, true, false)
 }
 pub fn inverse_trs_wide<S: Dom>(t: &mut Tape, cx: &mut Cx) -> CaseResult {
-    fast_inverse_wide::<S>(t, cx, false)
+    fast_inverse_wide::<S>(t, cx, false, false)
+}
+pub fn inverse_rigid_rounded<S: Dom>(t: &mut Tape, cx: &mut Cx) -> CaseResult {
+    fast_inverse_wide::<S>(t, cx, true, true)
+}
+pub fn inverse_trs_rounded<S: Dom>(t: &mut Tape, cx: &mut Cx) -> CaseResult {
+    fast_inverse_wide::<S>(t, cx, false, true)
 }
 
 // ---------------------------------------------------------------------------------------------------------------
